@@ -70,7 +70,7 @@ fn main() {
         }
         "C06" => {
             c06::run_all(&ctx);
-            ctx.finish(c06::RULE, &["thresholds are rigorous concentration bounds (Bernstein / Hoeffding, alpha = 2^-54 per test): detection power is limited to variance errors above roughly 10-30 % and per-bit biases above roughly 3 %", "public keys, LWE-related keys and the binary-FHE keys are built from the same internal routine (glwe_encrypt_sk_internal) and are not sampled separately here"], &[("variance_band_checked", 100), ("compressed", 100)])
+            ctx.finish(c06::RULE, &["thresholds are rigorous concentration bounds (Bernstein / Hoeffding, alpha = 2^-54 per test): detection power is limited to variance errors above roughly 10-30 % and per-bit biases above roughly 3 %", "public keys, LWE-related keys and the binary-FHE keys are built from the same internal routine (glwe_encrypt_sk_internal) and are not sampled separately here"], &[("variance_band_checked", 60), ("compressed", 40)])
         }
         "C12" => {
             c12s::run_all(&ctx);
